@@ -1,6 +1,7 @@
 pub mod admin_props;
 pub mod c04;
 pub mod c07;
+pub mod c12;
 pub mod c15;
 pub mod c18;
 pub mod full_props;
@@ -45,5 +46,6 @@ pub fn registry() -> Vec<PropertyDef> {
     v.extend(handshake_props::defs());
     v.extend(im_props::defs());
     v.extend(im_props::defs_c13());
+    v.extend(c12::defs());
     v
 }
